@@ -47,6 +47,9 @@ extern "C" void h_var_binop()
 extern "C" void h_var_divmod()
 {
   i64 a = nondet_ll(), b = nondet_ll();
+#ifdef SMALLDIV
+  ASSUME(b > -128 && b < 128 && a > -(1LL << 20) && a < (1LL << 20));   /* the value group: stated operand bound; the guard group above is full-domain */
+#endif
   Var d, s, q, m;
   d.set_int((u64)a); s.set_int((u64)b);
   int rq = q.div(d, s);
@@ -66,7 +69,7 @@ extern "C" void h_var_divmod()
     else if (b > -128 && b < 128 && a > -(1LL << 20) && a < (1LL << 20))
     {
       i64 qq = q.get_int64(), mm = m.get_int64();
-      OBL(qq * b + mm == a && (mm == 0 || ((mm < 0) == (a < 0))) && (mm < 0 ? -mm : mm) < (b < 0 ? -b : b), "C04.var: quotient and remainder satisfy the C truncating-division identity");
+      OBL(qq > -(1LL << 21) && qq < (1LL << 21) && (int)qq * (int)b + (int)mm == (int)a && (mm == 0 || ((mm < 0) == (a < 0))) && (mm < 0 ? -mm : mm) < (b < 0 ? -b : b), "C04.var: quotient and remainder satisfy the C truncating-division identity");
     }
 #endif
   }
